@@ -15,6 +15,7 @@
                   same f_min / f_max / grid as the bitmap.
  Rm memo          : every memoisation construct in the functions behind this property is keyed by everything it reads.
  Rp presence      : optional numeric fields are tested with `is None` / membership, never by truthiness (0 is a value).
+ Re for-each      : loops that act on every item are never left early (break / return).
 """
 import ast
 
@@ -380,6 +381,15 @@ def r5_common_range(ctx):
 
 
 
+def re_foreach(ctx):
+    """Re: loops that act on EVERY item (store on the item / call a function that writes it) are never left early (break / return):
+    the items after the exit would silently be skipped; the two search loops of the package are a frozen table"""
+    from .common import foreach_rule
+    from ..memo import scope_funcs
+    foreach_rule(ctx, 'Re.for-each', scope_funcs(ctx.repo, 'C15'), 'elements later in the list get no OMS / spectrum map')
+    ctx.need('Re.for-each', 2)
+
+
 from ..memo import rule_for as _memo_rule
 
 RULES_MEMO = ('Rm.memo', _memo_rule('C15', 'the spectrum map of another configuration would be reused'))
@@ -389,4 +399,4 @@ from ..presence import rule_for as _presence_rule
 
 RULES_PRESENCE = ('Rp.presence', _presence_rule('C15', 'a legal zero would be read as missing'))
 
-RULES = [('R5.common-range', r5_common_range), ('R1.layout', r1_layout), ('R2.indices', r2_indices), ('R3.grid', r3_grid), ('R4.walk', r4_walk), RULES_MEMO, RULES_PRESENCE]
+RULES = [('R5.common-range', r5_common_range), ('R1.layout', r1_layout), ('R2.indices', r2_indices), ('R3.grid', r3_grid), ('R4.walk', r4_walk), RULES_MEMO, RULES_PRESENCE, ('Re.for-each', re_foreach)]
